@@ -435,6 +435,12 @@ def _driver(spec):
                     if isinstance(form, dict) and form.get("latency") is not None:
                         form["latency"] = float(form["latency"]) + 7.0
                 emit(ev="action", what="whatif", changed=n)
+            elif argv.get("action") == "frontend_first":
+                # a library user creates the front end (a header-only load of the model) before anything else
+                from osaca.frontend import Frontend
+
+                Frontend(arch=argv["arch"])
+                emit(ev="action", what="frontend_first")
             elif argv.get("action") == "sleep":
                 # time passes in a long-lived process between two analyses
                 time.sleep(float(argv["s"]))
